@@ -557,6 +557,10 @@ def known_matcher(entry, case, out):
 def main(run, args):
     import checklib
     n = args.cases or (2500 if run.tier == "quick" else 40000)
+    # checklib builds Properties/C19.vo only; the case files also need Corr/C19.vo up to date
+    ok, out = vlib.build_coq(["Corr/C19.vo"])
+    if not ok:
+        vlib.log(out[-3000:])
     if not args.replay:
         vlib.build_harness("kind")
         st = run.rng.getstate()
